@@ -194,6 +194,53 @@ fn call_scoped_variable(rng: &mut Rng, out: &mut Out) {
     }
 }
 
+/// Three captures on the root pattern node: tree-sitter then reports matches without a node for
+/// the full-match capture the library appends. Whatever an execution makes of that, switching the
+/// debug attributes on must not change whether it succeeds.
+fn match_without_full_match_node(rng: &mut Rng, out: &mut Out) {
+    let text = *rng.pick(&[
+        "(identifier) @a @b @c { node n attr (n) x = @a, y = @b, z = @c }",
+        "[(identifier) (integer)] @a @b @c { node n attr (n) k = (source-text @a), l = @b, m = @c }",
+        "(identifier) @a @b @_c { node n attr (n) x = (source-text @a), y = @b }",
+    ]);
+    let source = "x = y + 1\n";
+    let tree = parse_python(source);
+    let ti = TreeInfo::new(&tree);
+    let file = match exec::load(text) {
+        Loaded::Ok(f) => f,
+        _ => {
+            out.inconclusive("harness: three-capture program rejected");
+            return;
+        }
+    };
+    let functions = stdlib();
+    let globals = BTreeMap::new();
+    for lazy in [false, true] {
+        let mode = if lazy { "lazy" } else { "strict" };
+        let plain = exec::execute(&file, &tree, source, &ti, &globals, &functions, &ExecOpts::new(lazy));
+        let mut dopts = ExecOpts::new(lazy);
+        dopts.debug_attrs = Some((LOC, VAR, MAT));
+        let debug = exec::execute(&file, &tree, source, &ti, &globals, &functions, &dopts);
+        out.evals(2);
+        let class = |r: &Real| match r {
+            Real::Graph(_) => "graph",
+            Real::Error(..) => "error",
+            Real::Panic(_) => "panic",
+            Real::Unreadable(_) => "unreadable",
+        };
+        let case = json!({"dsl": text, "source": source, "mode": mode, "plain": plain.real.brief(), "debug": debug.real.brief()});
+        if class(&plain.real) == "panic" || class(&debug.real) == "panic" {
+            out.violation(&format!("C15:panic:{}", mode), "execution panicked", case);
+            return;
+        }
+        if class(&plain.real) != class(&debug.real) {
+            out.violation(&format!("C15:debug-attributes-change-the-outcome:{}", mode), &format!("without debug attributes: {}, with them: {}", class(&plain.real), class(&debug.real)), case);
+            return;
+        }
+        out.feat(&format!("match_without_full_match_node:{}:{}", mode, class(&plain.real)));
+    }
+}
+
 /// Stanzas whose full match consists of several sibling nodes (a quantified top-level pattern):
 /// the match-node attribute must name one of those nodes, and both modes must name the same one.
 fn multi_node_match(rng: &mut Rng, out: &mut Out) {
@@ -278,6 +325,7 @@ impl Prop for C15 {
             }
             multi_node_match(rng, out);
             call_scoped_variable(rng, out);
+            match_without_full_match_node(rng, out);
             return;
         }
         let mut gcfg = GenCfg::order_insensitive();
